@@ -799,8 +799,14 @@ pub fn c16_strategy(transports: BoxedStrategy<Transport>) -> BoxedStrategy<ConvC
                         (_, 1) => ("Transfer-Encoding", "chunked".to_string()),
                         _ => ("X-Other", "v".to_string()),
                     };
+                    // now and then a long run of well-formed header lines comes first: the offence counts
+                    // wherever it stands in the head
+                    let fillers = if (text.len() * 3 + headers.len() + n) % 7 == 3 { [99usize, 100, 101, 128, 300][(text.len() + n) % 5] } else { 0 };
+                    for i in 0..fillers {
+                        r.headers.push(Hdr::new(&format!("X-F{}", i), "v"));
+                    }
                     // position: first header line or a later one (obs-fold when whitespace leads)
-                    let pos = if fold_first { 0 } else { r.headers.len() };
+                    let pos = if fold_first && fillers == 0 { 0 } else { r.headers.len() };
                     r.headers.insert(pos, Hdr::new(hname, &hvalue));
                     r.mal = Some(match kind {
                         4 => Malform::HeaderNoColon { at: pos, text: text.clone() },
